@@ -29,7 +29,7 @@ pub fn meta(m: &mut PropMeta) {
     m.explanation = "process-level enumeration of the complete option/program-class product against the gating rule of the statement, observed through the start markers and captured stdin of scripted fake generators";
     m.quick_bound = "product: 13 program classes x 3 positions x 0..3 generators x dry-run x 3 -A values x -O x 2 formats = 3744 runs; generator-failure: 2 classes x 6 (count, failing position) x 5 faults (missing executable, exit 1, empty reply, signal after the reply, a reply carrying an Error-level diagnostic) x 3 -A x 2 formats x dry-run = 720 runs (both complete)";
     m.thorough_bound = "same complete products (4176 runs)";
-    m.quick_cap_s = 45.0;
+    m.quick_cap_s = 120.0;
     m.thorough_cap_s = 120.0;
 }
 
